@@ -7,7 +7,7 @@ Executable model of `tenpy/tools/cache.py :: DictCache / CacheFile` over an abst
 * `long_term_keys` / `short_term_keys` are Python sets; they are represented by duplicate-free
   lists in insertion order (the harness compares them sorted).
 * `short_term_cache` and the storage containers are finite maps, represented by functions
-  `Key → Option Val`.
+  `Key → Option Val`; the attributes of cache number `i` are `Sys.ltk i`, `Sys.stc i`, ...
 * The abstract `Storage`: one container (a dict `data`, a pickle directory, an hdf5 group) per
   `DictCache`; container `i` belongs to cache `i`; `Sys.disk i` is its content.  `load/save/
   delete/preload/subcontainer` check `_opened` first ("Trying to access closed storage").
@@ -28,23 +28,19 @@ structure Kind where
   uniqueNames : Bool
 deriving Repr, DecidableEq
 
-structure Cache where
-  ltk   : List Key              -- long_term_keys
-  stc   : Key → Option Val      -- short_term_cache
-  stk   : List Key              -- short_term_keys
-  names : List Nat              -- names of the sub-containers created from this cache's storage
-
-def Cache.empty : Cache := { ltk := [], stc := fun _ => none, stk := [], names := [] }
-
 structure Sys where
   kind   : Kind
-  caches : Nat → Cache
   n      : Nat                          -- number of caches created so far (0 = the CacheFile)
+  ltk    : Nat → List Key               -- long_term_keys of cache i
+  stc    : Nat → Key → Option Val       -- short_term_cache of cache i
+  stk    : Nat → List Key               -- short_term_keys of cache i
+  names  : Nat → List Nat               -- names of the sub-containers created from cache i's storage
   disk   : Nat → Key → Option Val       -- content of storage container i
   opened : Bool                         -- `Storage._opened` of the root (and all sub-containers)
 
 def init (kind : Kind) : Sys :=
-  { kind := kind, caches := fun _ => Cache.empty, n := 1, disk := fun _ _ => none, opened := true }
+  { kind := kind, n := 1, ltk := fun _ => [], stc := fun _ _ => none, stk := fun _ => [],
+    names := fun _ => [], disk := fun _ _ => none, opened := true }
 
 inductive Err where
   | keyError        -- KeyError
@@ -80,59 +76,54 @@ inductive Op where
   | isOpen
 deriving Repr, DecidableEq
 
-def upd (f : Key → Option Val) (k : Key) (v : Option Val) : Key → Option Val :=
-  fun j => if j = k then v else f j
-
 def setAdd (l : List Key) (k : Key) : List Key := if k ∈ l then l else l ++ [k]
 
-def setCache (s : Sys) (i : Nat) (c : Cache) : Sys :=
-  { s with caches := fun j => if j = i then c else s.caches j }
-
+def setLtk (s : Sys) (i : Nat) (l : List Key) : Sys :=
+  { s with ltk := fun j => if j = i then l else s.ltk j }
+def setStk (s : Sys) (i : Nat) (l : List Key) : Sys :=
+  { s with stk := fun j => if j = i then l else s.stk j }
+def setStc (s : Sys) (i : Nat) (k : Key) (v : Option Val) : Sys :=
+  { s with stc := fun j k' => if j = i ∧ k' = k then v else s.stc j k' }
 def setDisk (s : Sys) (i : Nat) (k : Key) (v : Option Val) : Sys :=
-  { s with disk := fun j => if j = i then upd (s.disk i) k v else s.disk j }
+  { s with disk := fun j k' => if j = i ∧ k' = k then v else s.disk j k' }
 
 /-- `DictCache.__getitem__` -/
 def getitem (s : Sys) (i : Nat) (k : Key) : Sys × Out :=
-  let c := s.caches i
-  match c.stc k with
+  match s.stc i k with
   | some v => (s, .val (some v))                       -- `if key in self.short_term_cache`
   | none =>
-    if k ∈ c.ltk then
+    if k ∈ s.ltk i then
       if s.opened then
         match s.disk i k with                          -- `self.long_term_storage.load(key)`
-        | some v =>
-          (if k ∈ c.stk then setCache s i { c with stc := upd c.stc k (some v) } else s, .val (some v))
+        | some v => (setStc s i k (if k ∈ s.stk i then some v else none), .val (some v))  -- `if key in self.short_term_keys`
         | none => (s, .err .missing)
       else (s, .err .closed)
     else (s, .err .keyError)
 
 /-- `DictCache.get(key, default=None)` -/
 def get (s : Sys) (i : Nat) (k : Key) : Sys × Out :=
-  if k ∈ (s.caches i).ltk then getitem s i k else (s, .val none)
+  if k ∈ s.ltk i then getitem s i k else (s, .val none)
 
 /-- `DictCache.__setitem__` -/
 def setitem (s : Sys) (i : Nat) (k : Key) (v : Val) : Sys × Out :=
-  let c := s.caches i
-  let c1 := { c with ltk := setAdd c.ltk k }           -- `self.long_term_keys.add(key)`
+  let s1 := setLtk s i (setAdd (s.ltk i) k)            -- `self.long_term_keys.add(key)`
   if s.opened then
-    let s1 := setDisk s i k (some v)                   -- `self.long_term_storage.save(key, val)`
-    let c2 := if k ∈ c.stk then { c1 with stc := upd c1.stc k (some v) } else c1
-    (setCache s1 i c2, .unit)
-  else (setCache s i c1, .err .closed)
+    let s2 := setDisk s1 i k (some v)                  -- `self.long_term_storage.save(key, val)`
+    (setStc s2 i k (if k ∈ s.stk i then some v else s.stc i k), .unit)   -- `if key in self.short_term_keys`
+  else (s1, .err .closed)
 
 /-- `DictCache.__delitem__` (repaired: also forgets the short-term copy) -/
 def delitem (s : Sys) (i : Nat) (k : Key) : Sys × Out :=
-  let c := s.caches i
-  if k ∈ c.ltk then
-    let c1 := { c with ltk := c.ltk.filter (· ≠ k), stc := upd c.stc k none }
-    if s.opened then (setCache (setDisk s i k none) i c1, .unit)
-    else (setCache s i c1, .err .closed)
+  if k ∈ s.ltk i then
+    let s1 := setStc (setLtk s i ((s.ltk i).filter (· ≠ k))) i k none
+    if s.opened then (setDisk s1 i k none, .unit)
+    else (s1, .err .closed)
   else (s, .unit)
 
 /-- `DictCache.set_short_term_keys(*keys)` -/
 def setShortTermKeys (s : Sys) (i : Nat) (ks : List Key) : Sys × Out :=
-  let c := s.caches i
-  (setCache s i { c with stk := ks.foldl setAdd [], stc := fun k => if k ∈ ks then c.stc k else none },
+  ({ setStk s i (ks.foldl setAdd []) with
+       stc := fun j k => if j = i then (if k ∈ ks then s.stc i k else none) else s.stc j k },
    .unit)
 
 /-- the second loop of `DictCache.preload`: first key that raises -/
@@ -147,26 +138,27 @@ def preloadLoop (ltk : List Key) (opened raiseMissing : Bool) : List Key → Out
 
 /-- `DictCache.preload(*keys, raise_missing)` -/
 def preload (s : Sys) (i : Nat) (ks : List Key) (raiseMissing : Bool) : Sys × Out :=
-  let c := s.caches i
-  (setCache s i { c with stk := ks.foldl setAdd c.stk }, preloadLoop c.ltk s.opened raiseMissing ks)
+  (setStk s i (ks.foldl setAdd (s.stk i)), preloadLoop (s.ltk i) s.opened raiseMissing ks)
 
 /-- `DictCache.create_subcache(name)` = `DictCache(self.long_term_storage.subcontainer(name))` -/
 def createSubcache (s : Sys) (i : Nat) (name : Nat) : Sys × Out :=
-  let c := s.caches i
   if s.opened then
-    if s.kind.uniqueNames && c.names.contains name then (s, .err .subExists)
+    if s.kind.uniqueNames && (s.names i).contains name then (s, .err .subExists)
     else
-      let s1 := setCache s i { c with names := name :: c.names }
-      let s2 := setCache s1 s.n Cache.empty
-      ({ s2 with n := s.n + 1, disk := fun j => if j = s.n then (fun _ => none) else s.disk j },
+      ({ s with
+          n := s.n + 1
+          names := fun j => if j = s.n then [] else if j = i then name :: s.names i else s.names j
+          ltk := fun j => if j = s.n then [] else s.ltk j
+          stk := fun j => if j = s.n then [] else s.stk j
+          stc := fun j k => if j = s.n then none else s.stc j k
+          disk := fun j k => if j = s.n then none else s.disk j k },
        .sub s.n)
   else (s, .err .closed)
 
 /-- `CacheFile.close()` -/
 def close (s : Sys) : Sys × Out :=
   if s.opened then
-    let c := s.caches 0
-    ({ setCache s 0 { c with stc := fun _ => none } with opened := false }, .unit)
+    ({ s with opened := false, stc := fun j k => if j = 0 then none else s.stc j k }, .unit)
   else (s, .err .alreadyClosed)
 
 def step (s : Sys) (i : Nat) (op : Op) : Sys × Out :=
@@ -176,9 +168,9 @@ def step (s : Sys) (i : Nat) (op : Op) : Sys × Out :=
     | .get k => get s i k
     | .getitem k => getitem s i k
     | .del k => delitem s i k
-    | .contains k => (s, .bool (decide (k ∈ (s.caches i).ltk)))
-    | .len => (s, .nat (s.caches i).ltk.length)
-    | .iter => (s, .keys (s.caches i).ltk)
+    | .contains k => (s, .bool (decide (k ∈ s.ltk i)))
+    | .len => (s, .nat (s.ltk i).length)
+    | .iter => (s, .keys (s.ltk i))
     | .setShortTermKeys ks => setShortTermKeys s i ks
     | .preload ks r => preload s i ks r
     | .createSubcache name => createSubcache s i name
@@ -209,17 +201,16 @@ deriving Repr, DecidableEq
 
 /-- storage calls of `step s i op` while the storage is open (no call raises) -/
 def calls (s : Sys) (i : Nat) (op : Op) : List SCall :=
-  let c := s.caches i
   if i < s.n ∧ s.opened then
     match op with
     | .set k v => [.save i k v]
-    | .get k => if k ∈ c.ltk ∧ c.stc k = none then [.load i k] else []
-    | .getitem k => if k ∈ c.ltk ∧ c.stc k = none then [.load i k] else []
-    | .del k => if k ∈ c.ltk then [.delete i k] else []
+    | .get k => if k ∈ s.ltk i ∧ s.stc i k = none then [.load i k] else []
+    | .getitem k => if k ∈ s.ltk i ∧ s.stc i k = none then [.load i k] else []
+    | .del k => if k ∈ s.ltk i then [.delete i k] else []
     | .preload ks r =>
       let rec go : List Key → List SCall
         | [] => []
-        | k :: ks => if k ∈ c.ltk then .preload i k :: go ks else if r then [] else go ks
+        | k :: ks => if k ∈ s.ltk i then .preload i k :: go ks else if r then [] else go ks
       go ks
     | .close => if i = 0 then [.close] else []
     | _ => []
